@@ -43,6 +43,14 @@ FlagSoft(rule) ==
   /\ nverdicts' = nverdicts + 1
   /\ UNCHANGED skipping
 
+\* several rules broken by one event: each is recorded (no rule hides another), the scenario goes on
+FlagSoftSeq(rules) ==
+  /\ verdicts' = IF nverdicts < MaxVerdicts
+                 THEN verdicts \o [i \in 1..Len(rules) |-> [scenario |-> nscen, line |-> l, run |-> run, rule |-> rules[i]]]
+                 ELSE verdicts
+  /\ nverdicts' = nverdicts + Len(rules)
+  /\ UNCHANGED skipping
+
 Tuples(s) == {<<s[i][1], s[i][2]>> : i \in 1..Len(s)}
 Cells(s) == [i \in 1..Len(s) |-> <<s[i][1], s[i][2]>>]
 
@@ -151,21 +159,31 @@ SeedChunkEv ==
 ArchId(rg) == IF \E i \in 1..Len(sc.arch) : sc.arch[i][2] = rg[1] /\ sc.arch[i][3] = rg[2]
               THEN (CHOOSE i \in 1..Len(sc.arch) : sc.arch[i][2] = rg[1] /\ sc.arch[i][3] = rg[2])
               ELSE 0
+RD == INSTANCE Reader
 ReadChunksEv ==
   /\ Step("read_chunks")
   /\ LET idx == [i \in 1..Len(Ev.ranges) |-> ArchId(Ev.ranges[i])]
-         ids == {sc.arch[idx[i]][1] : i \in {j \in 1..Len(idx) : idx[j] # 0}} IN
+         ids == {sc.arch[idx[i]][1] : i \in {j \in 1..Len(idx) : idx[j] # 0}}
+         \* C06's clause on the list handed to the reader ...
+         fr == IF \E i \in 1..Len(idx) : idx[i] = 0 THEN "FETCH: requested range is not the stored range of a chunk"
+               \* a stored range may be asked for once per descriptor that names it (an archive may carry several descriptors for one chunk, C17)
+               ELSE IF \E i \in 1..Len(idx) : Cardinality({j \in 1..Len(idx) : idx[j] = idx[i]})
+                                               > Cardinality({k \in 1..Len(sc.arch) : sc.arch[k][2] = sc.arch[idx[i]][2] /\ sc.arch[k][3] = sc.arch[idx[i]][3]})
+                    THEN "FETCH: chunk requested twice"
+               ELSE IF ids \cap requested # {} THEN "FETCH: chunk requested twice"
+               ELSE IF \E id \in ids : id \in ReusableIds(sc, scan) THEN "FETCH: chunk found in the prior output was requested from the archive"
+               ELSE IF \E id \in ids : id \in provided THEN "FETCH: chunk found in a seed was requested from the archive"
+               ELSE IF \E id \in ids : rem[id] = {} THEN "FETCH: chunk requested although nothing is left to write for it"
+               ELSE "ok"
+         \* ... and C07's, judged independently: the reader turns the list into one request per run of adjacent entries (Reader.tla MaximalRuns),
+         \* so the list must yield what the descriptors of the wanted chunks, taken in archive (dictionary) order, yield
+         lst == [i \in 1..Len(Ev.ranges) |-> <<Ev.ranges[i][1], Ev.ranges[i][2]>>]
+         ref == LET want == SelectSeq([k \in 1..Len(sc.arch) |-> k], LAMBDA k : sc.arch[k][1] \in ids) IN [i \in 1..Len(want) |-> <<sc.arch[want[i]][2], sc.arch[want[i]][3]>>]
+         mr == IF (\A i \in 1..Len(idx) : idx[i] # 0) /\ RD!MaximalRuns(lst, 1) # RD!MaximalRuns(ref, 1)
+               THEN "RUN: the chunk list handed to the reader does not yield the maximal runs of adjacent missing chunks in archive order" ELSE "ok"
+         rules == (IF fr = "ok" THEN <<>> ELSE <<fr>>) \o (IF mr = "ok" THEN <<>> ELSE <<mr>>) IN
      /\ requested' = requested \cup ids
-     /\ IF \E i \in 1..Len(idx) : idx[i] = 0 THEN FlagSoft("FETCH: requested range is not the stored range of a chunk")
-        \* a stored range may be asked for once per descriptor that names it (an archive may carry several descriptors for one chunk, C17)
-        ELSE IF \E i \in 1..Len(idx) : Cardinality({j \in 1..Len(idx) : idx[j] = idx[i]})
-                                        > Cardinality({k \in 1..Len(sc.arch) : sc.arch[k][2] = sc.arch[idx[i]][2] /\ sc.arch[k][3] = sc.arch[idx[i]][3]})
-             THEN FlagSoft("FETCH: chunk requested twice")
-        ELSE IF ids \cap requested # {} THEN FlagSoft("FETCH: chunk requested twice")
-        ELSE IF \E id \in ids : id \in ReusableIds(sc, scan) THEN FlagSoft("FETCH: chunk found in the prior output was requested from the archive")
-        ELSE IF \E id \in ids : id \in provided THEN FlagSoft("FETCH: chunk found in a seed was requested from the archive")
-        ELSE IF \E id \in ids : rem[id] = {} THEN FlagSoft("FETCH: chunk requested although nothing is left to write for it")
-        ELSE NoFlag
+     /\ FlagSoftSeq(rules)
   /\ UNCHANGED <<sc, out, scan, rem, written, run, provided, faulted, nscen, nok, expect, unused>>
 
 \* ---- fault mode: the interrupted run ends (C05: a run whose write failed never reports success)
